@@ -300,9 +300,19 @@ def rule_S5(ctx):
     res = RuleResult("S5", "every reader of a transition's 'do' normalises it the same way "
                            "(sibling agreement between inspection and the engine)")
     prog = ctx.prog
-    tms = prog.cls(MODELS + ".TaskMappingSpec")
     forms = {}
-    for name, m in tms.methods.items():
+    tms = prog.cls(MODELS + ".TaskMappingSpec")
+    # the readers: methods of TaskMappingSpec, and methods of the other spec classes that
+    # TaskMappingSpec calls to read 'do' on its behalf (a shared normaliser)
+    called = {callee_name(c) for m in tms.methods.values() for c in calls_in(m.node)}
+    n_calls = {}
+    for m in tms.methods.values():
+        for c in calls_in(m.node):
+            n_calls[callee_name(c)] = n_calls.get(callee_name(c), 0) + 1
+    readers = list(tms.methods.values()) + [
+        m for m in prog.all_functions() if m.module.short == MODELS and m.cls is not None
+        and m.cls is not tms and m.name in called]
+    for m in readers:
         for n in ast.walk(m.node):
             if isinstance(n, ast.Assign) and len(n.targets) == 1 and isinstance(
                     n.targets[0], ast.Name) and isinstance(n.value, ast.BoolOp):
@@ -329,8 +339,17 @@ def rule_S5(ctx):
                                 isinstance(t, ast.Name) and t.id == var for t in s.targets):
                             norm.append(norm_src(s))
                     forms[m.qualname] = tuple(" ".join(x.split()) for x in norm)
-    if len(forms) < 3:
-        raise AnalysisError("fewer than three readers of 'do' in TaskMappingSpec (%d)" % len(forms))
+    uses = sum(1 if prog.function(q).cls is tms else n_calls.get(prog.function(q).name, 0)
+               for q in forms)
+    if uses < 3:
+        raise AnalysisError("fewer than three readers of 'do' in TaskMappingSpec (%d)" % uses)
+    res.facts["readers"] = sorted(forms)
+    shared = {prog.function(q).name: q for q in forms if prog.function(q).cls is not tms}
+    for m in tms.methods.values():
+        for c in calls_in(m.node):
+            if callee_name(c) in shared:
+                res.holds((m.qualname, "via " + shared[callee_name(c)]),
+                          "reads 'do' through the shared normaliser")
     ref = None
     counts = {}
     for q, fm in forms.items():
@@ -354,6 +373,24 @@ def rule_S5(ctx):
 BASE_DISPATCH = ("validate", "evaluate", "extract_vars", "has_expressions")
 
 
+def _part_of(e, P, mod):
+    """Expression e yields the statement held by a name of P, or parts of it: the name, its
+    items() / keys() / values(), a helper of the module applied to it, and list / enumerate /
+    sorted wrappers of those."""
+    if isinstance(e, ast.Name):
+        return e.id in P
+    if isinstance(e, ast.Call):
+        fn = e.func
+        if isinstance(fn, ast.Attribute) and fn.attr in ("items", "keys", "values") and not e.args:
+            return _part_of(fn.value, P, mod)
+        if isinstance(fn, ast.Name) and fn.id in ("list", "tuple", "enumerate", "sorted",
+                                                  "reversed", "iter") and e.args:
+            return _part_of(e.args[0], P, mod)
+        if isinstance(fn, ast.Name) and fn.id in mod.functions and fn.id.startswith("_"):
+            return any(_part_of(a, P, mod) for a in e.args)
+    return False
+
+
 def rule_S6(ctx):
     """expressions.base dispatches on the evaluators' own notion of 'has an expression': its
     module-level validate / evaluate / extract_vars / has_expressions look at a string only
@@ -367,14 +404,38 @@ def rule_S6(ctx):
     prog = ctx.prog
     mod = prog.module("expressions.base")
     found = 0
-    for name in BASE_DISPATCH:
+    # the dispatchers, and the module's own helpers they still call after inlining (a
+    # generator that walks the nested statement, say) with the statement as first argument
+    todo = [(n_, True) for n_ in BASE_DISPATCH]
+    seen_ = set()
+    while todo:
+        name, public = todo.pop(0)
+        if name in seen_:
+            continue
+        seen_.add(name)
         f = mod.functions.get(name)
         if f is None:
             continue
-        found += 1
+        found += public
+        for c_ in calls_in(f.node):
+            if isinstance(c_.func, ast.Name) and c_.func.id in mod.functions and \
+                    c_.func.id.startswith("_") and c_.func.id not in seen_:
+                todo.append((c_.func.id, False))
         if not f.params:
             continue
         p = f.params[0]
+        # names that hold the statement or a part of it: the parameter, targets of loops /
+        # comprehensions over it, plain copies
+        P = {p}
+        for _ in range(3):
+            for n in ast.walk(f.node):
+                src_, tgt_ = None, None
+                if isinstance(n, (ast.For, ast.comprehension)):
+                    src_, tgt_ = n.iter, n.target
+                elif isinstance(n, ast.Assign) and isinstance(n.value, ast.Name):
+                    src_, tgt_ = n.value, n.targets[0]
+                if src_ is not None and _part_of(src_, P, mod):
+                    P |= {x.id for x in ast.walk(tgt_) if isinstance(x, ast.Name)}
         modules = set(k for k, v in f.module.imports.items())
         for n in ast.walk(f.node):
             tests = []
@@ -382,28 +443,32 @@ def rule_S6(ctx):
                 tests.append(n.test)
             elif isinstance(n, ast.comprehension):
                 tests.extend(n.ifs)
+            P0 = P
+            if isinstance(n, ast.comprehension) and not _part_of(n.iter, P, mod):
+                # the comprehension's own variable shadows a name used for a part elsewhere
+                P = P - {x.id for x in ast.walk(n.target) if isinstance(x, ast.Name)}
             for t in tests:
                 inst = (f.qualname, norm_src(t))
                 why = None
                 for x in ast.walk(t):
                     if isinstance(x, ast.Compare):
                         ops = [x.left] + list(x.comparators)
-                        if any(isinstance(o, ast.Name) and o.id == p for o in ops):
+                        if any(isinstance(o, ast.Name) and o.id in P for o in ops):
                             why = "compares the text itself (%s)" % unparse(x)
                     elif isinstance(x, ast.Call):
                         fn = x.func
-                        uses = any(isinstance(a, ast.Name) and a.id == p for a in
+                        uses = any(isinstance(a, ast.Name) and a.id in P for a in
                                    list(x.args) + [k.value for k in x.keywords])
                         if isinstance(fn, ast.Attribute) and isinstance(fn.value, ast.Name):
-                            if fn.value.id == p:
-                                why = "calls %s.%s()" % (p, fn.attr)
+                            if fn.value.id in P:
+                                why = "calls %s.%s()" % (fn.value.id, fn.attr)
                             elif uses and fn.value.id in modules:
                                 why = "hands the text to %s" % unparse(fn)
                         elif isinstance(fn, ast.Name) and uses and fn.id not in (
                                 "isinstance", "len", "bool", "type") + BASE_DISPATCH:
                             why = "hands the text to %s()" % fn.id
                     elif isinstance(x, ast.Subscript) and isinstance(x.value, ast.Name) and \
-                            x.value.id == p:
+                            x.value.id in P:
                         why = "indexes the text (%s)" % unparse(x)
                 if why is None:
                     res.holds(inst)
@@ -414,6 +479,7 @@ def rule_S6(ctx):
                         "an evaluator recognises as an expression can be skipped, so its "
                         "grammar errors are not reported (or it is not evaluated)" % (name, why),
                         line=t.lineno))
+            P = P0
     if found < 3:
         raise AnalysisError("expressions.base dispatch functions vanished")
     return res
@@ -484,4 +550,41 @@ def rule_S7(ctx):
                         "consult it (it consults %s): strings that contain only that kind of "
                         "fragment are never dispatched to this evaluator, so their grammar "
                         "errors are not reported" % (name, attr, sorted(H)), line=node.lineno))
+    return res
+
+
+# ====================================================================== S8
+def rule_S8(ctx):
+    """A task name is looked up in the task mapping, never as an attribute of the spec object:
+    `getattr(self, <task name>)` / `hasattr(self, <task name>)` with a computed name also finds
+    methods and attributes of the object (update, copy, items, inspect ...), so an undefined
+    task with such a name counts as defined and inspection then crashes on it instead of
+    reporting it."""
+    res = RuleResult("S8", "TaskMappingSpec resolves task names by mapping membership / item "
+                           "access, not by attribute lookup with a computed name")
+    prog = ctx.prog
+    tms = prog.cls(MODELS + ".TaskMappingSpec")
+    n = 0
+    for name, m in sorted(tms.methods.items()):
+        for c in calls_in(m.node):
+            if isinstance(c.func, ast.Name) and c.func.id in ("getattr", "hasattr") and len(
+                    c.args) >= 2 and isinstance(c.args[0], ast.Name) and c.args[0].id == "self":
+                n += 1
+                inst = (m.qualname, norm_src(c))
+                if isinstance(c.args[1], ast.Constant):
+                    res.holds(inst, "constant attribute name")
+                else:
+                    res.violated(inst, _f(
+                        "S8", m, c, "attribute lookup with a computed name: " + norm_src(c),
+                        "%s(self, %s) looks a task name up among the attributes of the spec "
+                        "object: names of methods / attributes (update, copy, items ...) count as "
+                        "defined tasks" % (c.func.id, unparse(c.args[1]))))
+    # the positive form: membership tests on the mapping exist
+    member = sum(1 for m in tms.methods.values() for x in ast.walk(m.node)
+                 if isinstance(x, ast.Compare) and any(isinstance(o, (ast.In, ast.NotIn)) for o in x.ops)
+                 and any(isinstance(cmp_, ast.Name) and cmp_.id == "self" for cmp_ in x.comparators))
+    res.facts["membership_tests_on_the_mapping"] = member
+    if member < 1 and not res.findings:
+        raise AnalysisError("TaskMappingSpec no longer tests task names for membership")
+    res.holds(("membership",), "%d membership test(s) on the mapping" % member)
     return res
